@@ -143,6 +143,8 @@ def work(shard, res, tier, seed):
         [rx for _, rx in G.redox_family(rng, 6)] + [rx for _, rx in G.two_sided_oxygen(rng, 3)] + \
         [rx for _, rx in G.ionic_balanced(rng, 3)] + rng.sample(NOMATCH, 2)
     rng.shuffle(cands)
+    # always present: a double oxidation, single oxidations / a reduction that use reagent templates
+    cands = ["OCCCCO>>O=CCCC=O", "CCCCO>>CCCC=O", "CC(O)CC>>CC(=O)CC", "CCC(C)=O>>CCC(C)O"] + cands
     chosen, refs, kinds = [], [], {}
     for rx in cands:
         if len(chosen) >= shard["size"] - 2:
@@ -156,7 +158,7 @@ def work(shard, res, tier, seed):
             res.count("candidates_too_slow_or_failed")
             continue
         kind = out[0].get("solved_by") if out[0].get("solved") else "declined"
-        if kinds.get(kind, 0) >= max(3, shard["size"] // 3):
+        if kinds.get(kind, 0) >= max(3, shard["size"] // 3) + (3 if kind == "rule-based" else 0):
             continue
         kinds[kind] = kinds.get(kind, 0) + 1
         chosen.append(rx)
@@ -164,7 +166,11 @@ def work(shard, res, tier, seed):
     if len(chosen) < 6:
         res.incon("could not assemble a set")
         return
-    for k in rng.sample(range(len(chosen)), 2):  # duplicates of the same reaction in one batch
+    dup = rng.sample(range(len(chosen)), 2)  # duplicates of the same reaction in one batch ...
+    mcs_idx = [i for i, r in enumerate(refs) if r.get("solved_by") == "mcs-based"]
+    if mcs_idx:
+        dup[0] = rng.choice(mcs_idx)  # ... one of them a reaction that needs the MCS stage
+    for k in dup:
         chosen.append(chosen[k])
         refs.append(refs[k])
     for k, v in kinds.items():
